@@ -9,7 +9,18 @@ only = sys.argv[2:]
 props = {json.loads(l)['id']: json.loads(l) for l in open('/verif/properties.jsonl')}
 os.makedirs('/tmp/seedprompts', exist_ok=True)
 extra = ""
-if suffix >= 'c':
+if suffix >= 'd':
+    extra = ("\nRestrictions for this round: the change must NOT be in compose/graph_run.go, compose/graph_manager.go, "
+             "compose/graph.go, compose/tool_node.go, compose/utils.go, compose/dag.go, compose/generic_helper.go or schema/stream.go "
+             "(these have been covered by earlier rounds) - look at the other files of compose/ (workflow.go, chain*.go, branch.go, "
+             "field_mapping.go, state.go, checkpoint.go, interrupt.go, stream_reader.go, runnable.go, graph_node.go, "
+             "graph_call_options.go, graph_add_node_options.go, types_lambda.go, values_merge.go, error.go ...), at schema/ "
+             "(message.go, select.go, tool.go ...), internal/ (callbacks, serialization, generic, safe, concat ...), callbacks/, "
+             "utils/callbacks, components/ and flow/. Before you edit, write down THREE candidates in three different files; "
+             "implement the one that needs the most specific circumstances (a combination of two features, a particular "
+             "order of calls or completions, an unusual but legal value such as empty / nil / zero / duplicate / wrapped, a "
+             "second use of the same object, a type other than the common one).\n")
+elif suffix >= 'c':
     extra = ("\nBefore you edit anything, survey the code and write down THREE candidate changes in three DIFFERENT source "
              "files (or clearly different mechanisms) that would each break the property; then implement the one that a "
              "careful reviewer would find hardest to notice and that needs the most specific circumstances (a combination "
